@@ -64,7 +64,7 @@ theorem cutLoop_fixed (s T : Bytes) (n0 : Nat) (hs : Spec.inflate s = some (T, n
     ⟨i2, by show m ≤ bits2.bytes.size; rw [hy]; exact hm, Huffman.zero_shape, Huffman.zero_shape⟩
   have hsim := doStaticHuffman_sim ⟨bits2, m, 0, 0, 0, Huffman.zero, Huffman.zero⟩ hc2 (8 * s.size + 1) pE #[] T
     (by show huffBlock fixedLit fixedDist 7 5 bits2.bytes none 0 (8 * s.size + 1) bits2.pos #[] = .next pE T
-        rw [hy, p2]; exact hspec) rfl hT true
+        rw [hy, p2]; exact hspec) 0 (by simp) (by simp) hT true
   generalize Cutter.doStaticHuffman ⟨bits2, m, 0, 0, 0, Huffman.zero, Huffman.zero⟩ true = blk at h hsim
   obtain ⟨c3, err⟩ := blk
   obtain ⟨k1, k2, k3, k4, k5, _⟩ := hsim
@@ -82,6 +82,9 @@ theorem cutLoop_fixed (s T : Bytes) (n0 : Nat) (hs : Spec.inflate s = some (T, n
   split at h
   · -- nil: the whole block fits
     obtain ⟨a1, a2, a3, a4, a5⟩ := k3 rfl
+    have a3 : c3.decodedLen = (T.size : Int) := by
+      have h' : c3.decodedLen + ((0 : Nat) : Int) = (T.size : Int) := a3
+      omega
     have a1 : c3.bits.bytes = s := by rw [a1]; exact hy
     obtain ⟨iu3, pu3⟩ := Inv.unread a5
     try simp only [e2, if_false] at h
@@ -130,7 +133,9 @@ theorem cutLoop_fixed (s T : Bytes) (n0 : Nat) (hs : Spec.inflate s = some (T, n
     have a5 : 8 * c3.bits.index - c3.bits.nBits = q + 7 := a5
     have a6 : c3.bits.nBits ≤ 8 * c3.bits.index := a6
     have a7 : c3.bits.nBits ≤ 8 := a7
-    have a3 : c3.decodedLen = (o.size : Int) := a3
+    have a3 : c3.decodedLen = (o.size : Int) := by
+      have h' : c3.decodedLen + ((0 : Nat) : Int) = (o.size : Int) := a3
+      omega
     have a8 : ∀ i, bitAt c3.bits.bytes i =
         if q ≤ i ∧ i < q + 7 then ((rfcCode fixedLitLens 256).testBit (7 - 1 - (i - q))).toNat else bitAt s i := by
       intro i; rw [a8 i]; show _ = if _ then _ else bitAt s i
